@@ -1,5 +1,5 @@
 (* C04 model driver: evaluates the extracted ABFModel at floats on case lines from stdin.
-   Case:  ABF nd lower*nd width*nd nx*nd periodic*nd full min apply update cap maxf*nd szd same sub*nd hidej other*nd nsteps
+   Case:  ABF nd lower*nd width*nd nx*nd periodic*nd full min apply update cap maxf*nd szd same sub*nd hidej other*nd scaled sfac*(prod nx) nsteps
               (x*nd e*nd o*nd j*nd boundary)*nsteps
    Output (one line): per step "bin .. fbin .. cf .. tf .. af .. cnt .. sum .. go .." joined by " ; ",
    then " ; SPEC cnt .. sum .." = the per-bin count and minus the summed forces of the attributed samples
@@ -40,10 +40,19 @@ let () =
            let sub = List.init nd (fun _ -> nb ()) in
            let hidej = nb () in
            let other = List.init nd (fun _ -> nb ()) in
+           let scaled = nb () in
+           let nt = List.fold_left (fun a n -> a * (max n 0)) 1 nx in
+           let sfarr = Array.init nt (fun _ -> nf ()) in
+           let sfac (ix : z list) : float =
+             let rec addr a ixs nxs = match ixs, nxs with
+               | i :: ir, n :: nr -> let i = int_of_z i in if i < 0 || i >= n then (-1) else (if a < 0 then a else addr (a * n + i) ir nr)
+               | _, _ -> a in
+             let a = addr 0 ix nx in
+             if a >= 0 && a < nt then sfarr.(a) else 1.0 in
            let c = { c_nd = nat_of_int nd; c_lower = lower; c_width = width; c_nx = List.map z_of_int nx;
                      c_periodic = periodic; c_full = z_of_int full; c_min = z_of_int mn; c_apply = apply;
                      c_update = update; c_cap = cap; c_maxf = maxf; c_szd = szd; c_same_step = same;
-                     c_subtract = sub; c_hidej = hidej; c_other = other } in
+                     c_subtract = sub; c_hidej = hidej; c_other = other; c_scaled = scaled; c_sfac = sfac } in
            let nsteps = ni () in
            let steps = List.init nsteps (fun _ ->
                let x = nflist nd in let e = nflist nd in let o = nflist nd in let j = nflist nd in let b = nb () in
